@@ -170,6 +170,18 @@ func solveOne(r *FuncResult, o *Obligation, opt solveOpts) {
 	if o.Expect == "sat" {
 		res := portfolio(file, opt.seed, 2, "z3-new")
 		o.Result, o.Backend, o.Ms, o.Detail = res.verdict, res.solver, res.ms, firstLines(res.raw, 3)
+		if o.Result == "unsat" && o.Unless != "" {
+			// is the region entered at all under the preconditions?
+			e := &Obligation{Name: o.Name + "@entry", Text: "region entry reachable", Prefix: o.UnlessPrefix, Goal: not(o.Unless)}
+			ef := filepath.Join(dir, smtName(e.Name)+".smt2")
+			os.WriteFile(ef, []byte(obligationSMT(r.Script, e, nil)), 0o644)
+			er := portfolio(ef, opt.seed, 2, "z3-new")
+			o.Ms += er.ms
+			if er.verdict == "unsat" {
+				o.Result = "dead"
+				o.Detail = "the region is unreachable under the preconditions (entry refuted): nothing to cover"
+			}
+		}
 		return
 	}
 	// fast attempt, then the full race
@@ -210,7 +222,7 @@ func firstLines(s string, n int) string {
 // ok reports whether the obligation met its expectation.
 func (o *Obligation) ok() bool {
 	if o.Expect == "sat" {
-		return o.Result == "sat" || o.Result == "unknown" || o.Result == "timeout"
+		return o.Result == "sat" || o.Result == "unknown" || o.Result == "timeout" || o.Result == "dead"
 	}
 	return o.Result == "unsat"
 }
